@@ -51,7 +51,7 @@ theorem blacklistCheck_usesPos {t : BlTables} {bc : Check} (h : blacklistCheck t
   · cases h; rfl
 
 theorem forCheck_erased {env : Env} {c : Check} (h : c.usesPos = false) :
-    env.forCheck c = { env with v := env.v.erase } := by
+    env.forCheck c = env.blind := by
   simp [Env.forCheck, h]
 
 theorem rulesFor_mem_kinds {t : BlTables} {kind : Str} {r : Rule} (h : r ∈ t.rulesFor kind) :
@@ -103,7 +103,7 @@ theorem runCheck_plain {nm : NosecMap} {env : Env} {c : Check} {raw : PRaw} {l c
 theorem mem_runVisit {checks : List Check} {nm : NosecMap} {lines : List Str} {s : VState} {v : Visit}
     {kind : Str} {ctx : Ctx} {c : Check} {e : Event}
     (hd : dispatch v = some (kind, ctx)) (hc : c ∈ checks) (hk : kind ∈ c.kinds)
-    (he : e ∈ runCheck nm { v := v, st := s, ctx := ctx, lines := lines } c) :
+    (he : e ∈ runCheck nm { v := v, st := s, ctx := ctx } c) :
     e ∈ runVisit checks nm lines s v := by
   simp only [runVisit, hd, List.mem_flatMap]
   refine ⟨c, ?_, he⟩
